@@ -203,9 +203,7 @@ func hlNewSim(t testing.TB, c *kit.Ctx, r *kit.Rand, cfg hlConfig) *hlSim {
 			r.Fill(ad.VoteID[:])
 			r.Fill(ad.SelectionID[:])
 			r.Fill(ad.StateProofID[:])
-			if i%2 == 0 {
-				ad.IncentiveEligible = true
-			}
+			// (genesis allocations cannot carry IncentiveEligible; accounts become eligible through keyreg with the fee)
 			// one very large online account so that totals/circulation are dominated by stake
 			if i == 0 {
 				ad.MicroAlgos.Raw = 4_000_000_000_000_000
